@@ -15,11 +15,20 @@ CHECKS = {
          "one torrent, one honest seed, one tracker; handlers atomic (C20); silent corruption while stopped is unknowable to the client until the next verification and is excluded from the truthfulness oracle", MC, "looplab", "3/C04"),
  "C07": ("exploration", "every name / path-component string up to the stated length over a hostile byte alphabet plus a tricky list, in single- and multi-file torrents, both data-dir modes and utf-8 overrides: pure confinement oracle on every accepted Info, real allocator over the real file storage with a sentinel tree diff, tar extraction of hostile archives, and RemoveTorrent",
          "Linux path semantics; strings longer than the bound only through the tricky list; pre-existing symlinks inside the data dir not modelled", ENUM, "enum", "3/C07"),
+ "C11": ("exploration", "every message kind over a boundary lattice of field values, sequences of up to 3-4 messages, written by the real PeerWriter and compared byte for byte with an independent reference encoder, then read back by the real PeerReader under every 1-cut / 2-cut fragmentation of the cut lattice and byte-at-a-time; upload counter and handshake layout included",
+         "field values and cut positions outside the stated lattices are not enumerated; transport never errors", ENUM, "enum", "3/C11"),
+ "C12": ("exploration", "two real MSE endpoints over a chunk-controlled in-memory duplex with scripted crypto/rand: padA/padB over all 0..511, padC/padD and payload sizes on boundary sets, every offer/selection combination incl. illegal ones from an independent reference endpoint, every single split position of every flight; policy matrix of btconn Accept/Dial incl. the plaintext redial",
+         "keys, DH secrets and pad bytes from small fixed sets; >2 independent splits only as fixed chunk sizes; Dial over loopback TCP with uncontrolled fragmentation", ENUM, "enum", "3/C12"),
+ "C16": ("model_checking", "tier index machine explored by BFS to a fixpoint (all answer vectors, up to 2-4 concurrent calls interleaved at every point); every announce answer sequence up to the bound on the real PeriodicalAnnouncer under virtual time; the real UDP transport with 2-3 concurrent requests under every cancel/reply/expiry order; HTTP and UDP reply byte lattices",
+         "announcer back-off jitter bounded not pinned; at most 3 requests per UDP destination; no DNS", "explicit-state BFS to fixpoint + exhaustive operation-sequence enumeration on the real actors under virtual time (synctest)", "actorlab", "3/C16"),
+ "C18": ("model_checking", "interval tree vs linear scan for every list of <=4(5) intervals over two endpoint lattices and every query point; Blocklist for every list of <=3 lines of a 49-line universe and every Reload sequence; AddrList for every push/pop/reset sequence up to depth 6(7) against a reference bounded priority set; resolver on blocked literals",
+         "peerpriority.Calculate taken as given; eviction rule modelled as implemented; session-level dial admission is checked separately (looplab)", ENUM, "enum", "3/C18"),
  "C10": ("model_checking", "every layout/mode configuration run under the eager fair schedule and every single deviation of it on the real event loop; completion with byte-identical files is required in each",
          "bounded liveness under the default continuation; other parties' misbehaviour limited to the stated deviation alphabet", MC, "looplab", "3/C10"),
 }
 ENGINES = [
  {"name": "enum", "path": "engine/geom, engine/paths, ... (E4 packages)", "serves_properties": [], "kind_free_text": "bounded-exhaustive enumeration of inputs / operation sequences against a reference model, on the real code"},
+ {"name": "actorlab", "path": "engine/trk16, engine/limits, engine/picker, ... (E2 packages)", "serves_properties": [], "kind_free_text": "one real actor (announcer, UDP transport, tier, resource manager, picker) with scripted, gated environment under virtual time; BFS to fixpoint or exhaustive operation sequences"},
  {"name": "looplab", "path": "engine/lab + engine/core + engine/vnet + engine/vrand + hooks-lab", "serves_properties": [], "kind_free_text": "explicit-state exploration of the real torrent event loop inside a synctest bubble: explorer-owned select, in-memory network, recording storage, scripted peers/trackers; deviation-bounded DFS over worker subprocesses"},
 ]
 NOT_BUILT = "check not built yet in this session (planned, see DESIGN.md section 3); not a statement that model checking cannot apply"
